@@ -6,7 +6,7 @@ import os
 import sys
 import textwrap
 import httpx
-from .e2e import generate_client, SCRATCH
+from .e2e import generate_client, SCRATCH, write_helper
 
 SCHEMA = """
 scalar MONEY
@@ -17,18 +17,16 @@ QUERY = "query GetA($a: MONEY) { qa(a: $a) } query GetB($b: [MONEY!]) { qb(b: $b
 
 def check_variable_serialize():
     rep = dict(inputs={"schema": SCHEMA, "query": QUERY}, failed=[], undetermined=[], pre_ok=True, outcome=None, error=None)
-    os.makedirs(SCRATCH, exist_ok=True)
     helper = "pyvc_scalar_helper"
-    with open(os.path.join(SCRATCH, helper + ".py"), "w") as f:
-        f.write(textwrap.dedent("""
-            CALLS = []
-            class Money:
-                def __init__(self, v): self.v = v
-                def __bool__(self): return bool(self.v)
-            def ser(x):
-                CALLS.append(x)
-                return "EUR %s" % getattr(x, "v", x)
-        """))
+    write_helper(helper, textwrap.dedent("""
+        CALLS = []
+        class Money:
+            def __init__(self, v): self.v = v
+            def __bool__(self): return bool(self.v)
+        def ser(x):
+            CALLS.append(x)
+            return "EUR %s" % getattr(x, "v", x)
+    """))
     if SCRATCH not in sys.path:
         sys.path.insert(0, SCRATCH)
     g = None
@@ -140,10 +138,8 @@ def _scalar_positions(flavour, extra_opts, client_kw):
     import importlib
     import pydantic
     cases, fails = 0, []
-    os.makedirs(SCRATCH, exist_ok=True)
     helper = "pyvc_scalar_positions"
-    with open(os.path.join(SCRATCH, helper + ".py"), "w") as f:
-        f.write(HELPER_SRC)
+    write_helper(helper, HELPER_SRC)
     if SCRATCH not in sys.path:
         sys.path.insert(0, SCRATCH)
     g = None
